@@ -456,6 +456,22 @@ func (h *Hist) scan(faults map[int]bool, failDesc map[string]bool) (string, erro
 				}
 			}
 		}
+		// … a stamp the API server refused is still part of the recorded UPDATE the model is compared with
+		for _, e := range h.rec.Entries {
+			if m, ok := e.Call.(map[string]interface{}); ok {
+				if u, ok := m["updateNode"].(map[string]interface{}); ok {
+					if obj, ok := u["obj"].(PNode); ok {
+						for _, t := range obj.Taints {
+							if t.Key == escKey && t.Value != secStr {
+								if v, err := strconv.ParseInt(t.Value, 10, 64); err == nil && v > sec && v <= sec+30 {
+									return outcome, errStraddle
+								}
+							}
+						}
+					}
+				}
+			}
+		}
 	}
 	h.ctl.VerifQuantise(frozen, frozen)
 	mutated := []string{}
